@@ -11,6 +11,7 @@ import cases
 import cli
 import core
 import tlc
+import writer
 
 SCI = re.compile(r"(?<![\w.])(-?\d\.\d{8}e[-+]\d{2,3}|-?nan|-?inf)(?![\w.%])")
 PCT = re.compile(r"\(\s*(-?\d+\.\d|-?nan|-?inf)%")
@@ -193,6 +194,13 @@ def run(tier, seed):
     for rep in tlc.validate_traces("Trace_C15.tla", shards, jobs=16, cfg="Trace_TR.cfg", heap="3g"):
         cx.add_report(rep)
         cx.cov["invariant_evaluations"] = cx.cov.get("invariant_evaluations", 0) + rep["extra"]["nchecked"]
+    # the output document as a state machine (SLHAWriter.tla): model check, wrong variants, conformance of the library
+    r = tlc.model_check("SLHAWriter.tla", "SLHAWriter_asis.cfg" if tier == "thorough" else "SLHAWriter_asis1.cfg", workers=16, heap="6g")
+    cx.add_model(r, "SLHAWriter.tla: EchoOthers / WriterSeesResult / ReaderSeesResult / BlockPlacement / Idempotent over all "
+                    "4033 bounded input documents and %d operations" % (2 if tier == "thorough" else 1))
+    for v, inv in (("erase_following", "EchoOthers"), ("append_always", "Idempotent"), ("last_block", "WriterSeesResult")):
+        tlc.model_check("SLHAWriter.tla", "SLHAWriter_%s.cfg" % v, expect_violation=inv, workers=4, heap="4g")
+    writer.run(cx, tier, rnd)
     cx.cov["inputs"] = len(ins)
     cx.cov["option_vectors_per_input"] = len(opts)
     cx.assumptions += ["decimal parsing of stdout (harness/props/c15.py: dec) and the stdout abstraction of harness/lib/cli.py",
